@@ -337,3 +337,347 @@ Proof.
   intros d r Hd. destruct (dig_absent_fetch g s d H Hd) as [Hf He].
   cbn [file_step]. rewrite Hf, He. repeat split; auto. intro Hr. destruct r; auto. congruence.
 Qed.
+
+(* ================================================================== *)
+(* Predecessors of the file store                                       *)
+(* ================================================================== *)
+Lemma mem_keys_put (k k0 : gkey) (v : desc) m :
+  mem gkey_eqb k (map fst (put gkey_eqb k0 v m)) = gkey_eqb k k0 || mem gkey_eqb k (map fst m).
+Proof.
+  induction m as [|[k' v'] m IH]; simpl.
+  - now rewrite orb_false_r.
+  - destruct (gkey_eqb k0 k') eqn:E; simpl.
+    + apply gkey_eqb_spec in E. subst k'. destruct (gkey_eqb k k0); reflexivity.
+    + rewrite IH. destruct (gkey_eqb k k'), (gkey_eqb k k0); reflexivity.
+Qed.
+
+Section FileGraph.
+  (* collision freedom: the bytes a digest stands for *)
+  Variable B : N -> blob.
+
+  Definition wfB_op (o : op) : Prop :=
+    match o with
+    | Push d c => (verify d c = true -> c = B (d_dig d)) /\
+                  (verify d (limit_reader d c) = true -> limit_reader d c = B (d_dig d))
+    | _ => True
+    end.
+
+  Record file_B (s : file_store) : Prop := mkFB {
+    fb_disk : forall p c, get N.eqb p (f_disk s) = Some c -> c = B (b_hash c);
+    fb_cas : forall k c, get gkey_eqb k (f_cas s) = Some c -> c = B (b_hash c) }.
+
+  (* the successor list of every indexed node is the one of the bytes of its digest *)
+  Definition S_file (g : graph) : gkey -> option (list gkey) :=
+    fun k => if mem gkey_eqb k (map fst (g_nodes g)) then Some (succ_of k (B (k_dig k))) else None.
+
+  Definition file_ginv (s : file_store) : Prop := graph_inv (S_file (f_graph s)) (f_graph s).
+
+  Lemma file_ginv_init : file_ginv file_init.
+  Proof. unfold file_ginv. eapply graph_inv_ext; [|exact graph_inv_init]. intro k. reflexivity. Qed.
+
+  Lemma g_index_file g d ss :
+    graph_inv (S_file g) g -> ss = succ_of (gk d) (B (d_dig d)) ->
+    graph_inv (S_file (g_index d ss g)) (g_index d ss g).
+  Proof.
+    intros Hg ->. eapply graph_inv_ext; [|apply g_index_inv'; [exact Hg|]].
+    - intro k. unfold upd, S_file. rewrite g_index_nodes, mem_keys_put.
+      destruct (gkey_eqb k (gk d)) eqn:E; [|reflexivity]. apply gkey_eqb_spec in E. subst k. reflexivity.
+    - unfold S_file. destruct (mem gkey_eqb (gk d) (map fst (g_nodes g))); [right|left]; reflexivity.
+  Qed.
+
+  Lemma file_fetch_B d s c : file_inv s -> file_B s -> file_fetch d s = Some c -> c = B (d_dig d).
+  Proof.
+    intros Hi [A C] Hf. destruct (file_fetch_inv _ _ _ Hi Hf) as [Hh _]. rewrite <- Hh.
+    unfold file_fetch in Hf. destruct (name_ok d s); [|discriminate].
+    destruct (get N.eqb (d_dig d) (f_d2p s)); eauto.
+  Qed.
+
+  Lemma file_index_ginv d s :
+    file_inv s -> file_B s -> file_ginv s -> file_ginv (fst (file_index d s)).
+  Proof.
+    intros Hi Hb Hg. unfold file_index, file_ginv in *. destruct (is_manifest (d_mt d)) eqn:Em.
+    - destruct (file_fetch d s) as [c1|] eqn:Ef; cbn [fst]; [|exact Hg].
+      destruct (d_dig d =? b_hash c1); cbn [fst f_graph]; [|exact Hg].
+      apply g_index_file; auto. now rewrite (file_fetch_B _ _ _ Hi Hb Ef).
+    - cbn [fst f_graph]. apply g_index_file; auto. unfold succ_of. change (k_mt (gk d)) with (d_mt d). now rewrite Em.
+  Qed.
+
+  (* steps that do not touch the graph *)
+  Lemma file_named_push_graph_same fx ov s k n c : f_graph (fst (file_named_push fx ov s k n c)) = f_graph s.
+  Proof.
+    unfold file_named_push. destruct (mem N.eqb n (f_names s)); auto. destruct (bad_name n); auto.
+    destruct (ov && _); auto. destruct (_ && _); reflexivity.
+  Qed.
+
+  Lemma file_restore_graph_same fx ov tl : forall s, f_graph (fst (file_restore fx ov tl s)) = f_graph s.
+  Proof.
+    induction tl as [|[k n] tl IH]; intro s; [reflexivity|]. cbn [file_restore].
+    destruct ((n =? 0) || mem N.eqb n (f_names s)); [apply IH|].
+    destruct (file_fetch _ s) as [c2|]; [|apply IH].
+    match goal with |- context [file_named_push fx ov s k n ?cc] =>
+      pose proof (file_named_push_graph_same fx ov s k n cc) as X;
+      destruct (file_named_push fx ov s k n cc) as [s1 [e|]] end; cbn [fst] in X.
+    - destruct e as [o|[| |]]; try exact X. rewrite IH. exact X.
+    - rewrite IH. exact X.
+  Qed.
+
+  (* stored blobs stay the bytes of their digests *)
+  Lemma file_named_push_B ov s k n c :
+    file_B s -> c = B (b_hash c) -> file_B (fst (file_named_push true ov s k n c)).
+  Proof.
+    intros [A C] Hc. unfold file_named_push.
+    destruct (mem N.eqb n (f_names s)); [split; auto|]. destruct (bad_name n); [split; auto|].
+    destruct (ov && _); [split; auto|]. destruct (_ && _); cbn [fst]; split; cbn [f_disk f_cas]; auto.
+    - intros p c0. destruct (N.eq_dec p (path_of n)) as [->|Hne].
+      + rewrite (get_put_eq N.eqb Neqb_spec). intro E. now injection E as <-.
+      + rewrite (get_put_neq N.eqb Neqb_spec) by exact Hne. apply A.
+    - intros p c0 E. destruct (N.eq_dec p (path_of n)) as [->|Hne].
+      + rewrite (get_del_eq N.eqb) in E. discriminate.
+      + rewrite (get_del_neq N.eqb Neqb_spec) in E by exact Hne. eapply A; eauto.
+  Qed.
+
+  Lemma file_restore_B ov tl : forall s,
+    file_inv s -> file_B s -> (forall k n, In (k, n) tl -> path_of n = n) ->
+    file_B (fst (file_restore true ov tl s)).
+  Proof.
+    induction tl as [|[k n] tl IH]; intros s Hi Hb Ht; [exact Hb|].
+    assert (Ht' : forall k0 n0, In (k0, n0) tl -> path_of n0 = n0) by (intros; eapply Ht; right; eauto).
+    cbn [file_restore]. destruct ((n =? 0) || mem N.eqb n (f_names s)) eqn:En; [now apply IH|].
+    destruct (file_fetch (mkDesc (k_mt k) (k_dig k) (k_size k) 0) s) as [c2|] eqn:Ef; [|now apply IH].
+    assert (Hc2 : c2 = B (b_hash c2)).
+    { pose proof (file_fetch_B _ _ _ Hi Hb Ef) as X. destruct (file_fetch_inv _ _ _ Hi Ef) as [Hh _].
+      cbn [d_dig] in *. now rewrite Hh. }
+    destruct (file_fetch_inv _ _ _ Hi Ef) as [_ Hok].
+    set (c2' := match get N.eqb (k_dig k) (f_d2p s) with
+                | Some p => if (p =? path_of n) && negb (b_len c2 =? 0) then mkBlob 0 0 [] 0 [] else c2
+                | None => c2 end).
+    assert (Hc2' : c2' = c2).
+    { unfold c2'. destruct (get N.eqb (k_dig k) (f_d2p s)) as [p|] eqn:Ep; auto.
+      destruct Hi as [A _ _]. destruct (A _ _ Ep) as [Hp _].
+      rewrite (Ht k n (or_introl eq_refl)).
+      destruct (p =? n) eqn:Epn; auto. apply N.eqb_eq in Epn. subst p.
+      apply orb_false_iff in En as [_ En]. apply memN_In in Hp. congruence. }
+    rewrite Hc2'.
+    pose proof (file_named_push_B ov s k n c2 Hb Hc2) as H1.
+    pose proof (file_named_push_inv ov s k n c2 Hi (Ht k n (or_introl eq_refl)) Hok) as H2.
+    destruct (file_named_push true ov s k n c2) as [s1 [e|]]; cbn [fst] in *.
+    - destruct e as [o|[| |]]; try exact H1. now apply IH.
+    - now apply IH.
+  Qed.
+
+  Lemma file_index_B d s : file_B s -> file_B (fst (file_index d s)).
+  Proof.
+    intros [A C]. unfold file_index. destruct (is_manifest (d_mt d)); [|split; auto].
+    destruct (file_fetch d s) as [c1|]; [|split; auto]. destruct (d_dig d =? b_hash c1); split; auto.
+  Qed.
+
+  Lemma file_index_graph_only d s : fcore (fst (file_index d s)) = fcore s.
+  Proof. apply fcore_index. Qed.
+
+  Record file_G (s : file_store) : Prop := mkFG { fg_inv : file_inv s; fg_B : file_B s; fg_g : file_ginv s }.
+
+  Lemma file_index_after_G ov d s : file_G s -> file_G (fst (file_index_after true ov d s)).
+  Proof.
+    intros [Hi Hb Hg]. unfold file_index_after.
+    pose proof (file_index_inv d s Hi) as Hi2. pose proof (file_index_B d s Hb) as Hb2.
+    pose proof (file_index_ginv d s Hi Hb Hg) as Hg2.
+    destruct (file_index d s) as [s2 r]. cbn [fst] in *.
+    assert (H2 : file_G s2) by (constructor; auto).
+    destruct r as [o|e]; [|exact H2]. destruct o; try exact H2.
+    destruct (is_manifest (d_mt d)); [|exact H2].
+    destruct (file_fetch d s2) as [c1|] eqn:Ef; [|exact H2]. destruct (d_dig d =? b_hash c1); [|exact H2].
+    destruct (file_fetch_inv _ _ _ Hi2 Ef) as [_ [Hok _]].
+    pose proof (file_restore_inv ov (b_tl c1) s2 Hi2 Hok) as Hi3.
+    pose proof (file_restore_B ov (b_tl c1) s2 Hi2 Hb2 Hok) as Hb3.
+    pose proof (file_restore_graph_same true ov (b_tl c1) s2) as Hgr.
+    destruct (file_restore true ov (b_tl c1) s2) as [s3 [e|]]; cbn [fst] in *;
+      (constructor; auto; unfold file_ginv; rewrite Hgr; exact Hg2).
+  Qed.
+
+  Lemma file_step_G ig ov s o : no_alias o -> wfB_op o -> file_G s -> file_G (fst (file_step true ig ov s o)).
+  Proof.
+    intros Hna Hw HG. pose proof HG as [Hi Hb Hg]. destruct o; cbn [file_step]; try exact HG.
+    - destruct Hna as [Hna Ht]. destruct Hw as [Hw1 Hw2].
+      destruct (d_name d =? 0) eqn:En.
+      + destruct ig.
+        * destruct (is_manifest (d_mt d)); [|exact HG]. destruct (verify d c); [|exact HG].
+          pose proof (file_restore_inv ov (b_tl c) s Hi (proj1 Ht)) as Hi3.
+          pose proof (file_restore_B ov (b_tl c) s Hi Hb (proj1 Ht)) as Hb3.
+          pose proof (file_restore_graph_same true ov (b_tl c) s) as Hgr.
+          destruct (file_restore true ov (b_tl c) s) as [s3 [e|]]; cbn [fst] in *;
+            (constructor; auto; unfold file_ginv; rewrite Hgr; exact Hg).
+        * destruct (get gkey_eqb (gk d) (f_cas s)) eqn:Ec; [exact HG|].
+          destruct (verify d (limit_reader d c)) eqn:V; [|exact HG].
+          apply file_index_after_G. constructor.
+          -- pose proof (file_step_inv false ov s (Push d c) (conj Hna Ht) Hi) as H. cbn [file_step] in H.
+             rewrite En, Ec, V in H.
+             destruct Hi as [A B0 C]. constructor; cbn [f_names f_d2p f_disk f_cas]; auto. intros k c0.
+             destruct (eqb_dec gkey_eqb gkey_eqb_spec k (gk d)) as [->|Hne].
+             ++ rewrite (get_put_eq gkey_eqb gkey_eqb_spec). intro E. injection E as <-.
+                apply verify_spec in V as [V _]. split; [exact V | now apply titles_ok_limit].
+             ++ rewrite (get_put_neq gkey_eqb gkey_eqb_spec) by exact Hne. apply C.
+          -- destruct Hb as [A C]. constructor; cbn [f_disk f_cas]; auto. intros k c0.
+             destruct (eqb_dec gkey_eqb gkey_eqb_spec k (gk d)) as [->|Hne].
+             ++ rewrite (get_put_eq gkey_eqb gkey_eqb_spec). intro E. injection E as <-.
+                rewrite (Hw2 eq_refl) at 1. f_equal. apply verify_spec in V as [V' _]. now rewrite V'.
+             ++ rewrite (get_put_neq gkey_eqb gkey_eqb_spec) by exact Hne. apply C.
+          -- exact Hg.
+      + assert (Hc : (k_dig (gk d) =? b_hash c) && (k_size (gk d) =? b_len c) = true -> c = B (b_hash c)).
+        { intro V. change ((d_dig d =? b_hash c) && (d_size d =? b_len c) = true) in V.
+          rewrite (Hw1 V) at 1. f_equal. apply verify_spec in V as [V' _]. now rewrite V'. }
+        pose proof (file_named_push_inv ov s (gk d) (d_name d) c Hi Hna Ht) as Hi1.
+        pose proof (file_named_push_graph_same true ov s (gk d) (d_name d) c) as Hgr.
+        assert (Hb1 : file_B (fst (file_named_push true ov s (gk d) (d_name d) c))).
+        { unfold file_named_push.
+          destruct (mem N.eqb (d_name d) (f_names s)); [exact Hb|]. destruct (bad_name (d_name d)); [exact Hb|].
+          destruct (ov && _); [exact Hb|].
+          destruct ((k_dig (gk d) =? b_hash c) && (k_size (gk d) =? b_len c)) eqn:V; cbn [fst].
+          - specialize (Hc eq_refl). destruct Hb as [A C]. split; cbn [f_disk f_cas]; auto. intros p c0.
+            destruct (N.eq_dec p (path_of (d_name d))) as [->|Hne].
+            + rewrite (get_put_eq N.eqb Neqb_spec). intro E. now injection E as <-.
+            + rewrite (get_put_neq N.eqb Neqb_spec) by exact Hne. apply A.
+          - destruct Hb as [A C]. split; cbn [f_disk f_cas]; auto. intros p c0 E.
+            destruct (N.eq_dec p (path_of (d_name d))) as [->|Hne].
+            + rewrite (get_del_eq N.eqb) in E. discriminate.
+            + rewrite (get_del_neq N.eqb Neqb_spec) in E by exact Hne. eapply A; eauto. }
+        destruct (file_named_push true ov s (gk d) (d_name d) c) as [s1 [e|]]; cbn [fst] in *.
+        * constructor; auto. unfold file_ginv. rewrite Hgr. exact Hg.
+        * apply file_index_after_G. constructor; auto. unfold file_ginv. rewrite Hgr. exact Hg.
+    - destruct (file_fetch d s); exact HG.
+    - destruct r; try exact HG; (destruct (file_exists d s); [|exact HG]; cbn [fst];
+        destruct Hi as [A0 B0 C0]; destruct Hb as [A1 C1]; constructor; [constructor; auto | constructor; auto | exact Hg]).
+    - destruct r; try exact HG; destruct (get ref_eqb _ (r_index (f_res s))); exact HG.
+  Qed.
+
+  Lemma file_run_G ig ov h : forall s,
+    Forall no_alias h -> Forall wfB_op h -> file_G s -> file_G (fst (runf (file_step true ig ov) s h)).
+  Proof.
+    induction h as [|o h IH]; intros s Hna Hw H; [exact H|]. rewrite runf_cons. cbn [fst].
+    inversion Hna; inversion Hw; subst. apply IH; auto. now apply file_step_G.
+  Qed.
+
+  Lemma file_G_init : file_G file_init.
+  Proof.
+    constructor; [exact file_inv_init | constructor; simpl; intros; discriminate | exact file_ginv_init].
+  Qed.
+
+  (* Predecessors answers exactly the indexed nodes whose bytes list the node as a successor *)
+  Theorem file_preds_exact ig ov h n k :
+    Forall no_alias h -> Forall wfB_op h ->
+    let s := fst (runf (file_step true ig ov) file_init h) in
+    In k (map gk (g_predecessors n (f_graph s))) <->
+    In k (map fst (g_nodes (f_graph s))) /\ In (gk n) (succ_of k (B (k_dig k))).
+  Proof.
+    intros Hna Hw s. pose proof (file_run_G ig ov h _ Hna Hw file_G_init) as [_ _ Hg]. fold s in Hg.
+    rewrite (g_predecessors_spec _ _ _ _ Hg). unfold S_file. split.
+    - intros (l & A & C). destruct (mem gkey_eqb k (map fst (g_nodes (f_graph s)))) eqn:E; [|discriminate].
+      injection A as <-. split; auto. now apply (mem_In gkey_eqb gkey_eqb_spec).
+    - intros [A C]. apply (mem_In gkey_eqb gkey_eqb_spec) in A. rewrite A. eauto.
+  Qed.
+End FileGraph.
+
+(* ---------- a successful Push is indexed, and stays indexed ---------- *)
+Definition indexed (k : gkey) (s : file_store) : Prop := mem gkey_eqb k (map fst (g_nodes (f_graph s))) = true.
+
+Lemma indexed_g_index k d ss s :
+  indexed k s \/ k = gk d ->
+  indexed k (mkFile (f_names s) (f_d2p s) (f_disk s) (f_cas s) (f_res s) (g_index d ss (f_graph s))).
+Proof.
+  unfold indexed. cbn [f_graph]. rewrite g_index_nodes, mem_keys_put. intros [H| ->].
+  - rewrite H. apply orb_true_r.
+  - now rewrite (eqb_refl gkey_eqb gkey_eqb_spec).
+Qed.
+
+Lemma indexed_file_index k d s : indexed k s -> indexed k (fst (file_index d s)).
+Proof.
+  intro H. unfold file_index. destruct (is_manifest (d_mt d)).
+  - destruct (file_fetch d s) as [c1|]; [|exact H]. destruct (d_dig d =? b_hash c1); [|exact H].
+    cbn [fst]. apply indexed_g_index. now left.
+  - cbn [fst]. apply indexed_g_index. now left.
+Qed.
+
+Lemma indexed_index_after fx ov k d s : indexed k s -> indexed k (fst (file_index_after fx ov d s)).
+Proof.
+  intro H. apply (file_index_after_rel (fun a b => indexed k a -> indexed k b)); auto.
+  - intros d0 a. apply indexed_file_index.
+  - intros tl a Ha. unfold indexed. now rewrite file_restore_graph_same.
+Qed.
+
+Lemma indexed_step fx ig ov k s o : indexed k s -> indexed k (fst (file_step fx ig ov s o)).
+Proof.
+  intro H. destruct o; try exact H.
+  - rewrite file_step_push_split. unfold file_push_store. destruct (d_name d =? 0).
+    + destruct ig.
+      * destruct (is_manifest (d_mt d)); [|exact H]. destruct (verify d c); [|exact H].
+        pose proof (file_restore_graph_same fx ov (b_tl c) s) as X.
+        destruct (file_restore fx ov (b_tl c) s) as [s2 [e|]]; cbn [fst] in *; unfold indexed; now rewrite X.
+      * destruct (get gkey_eqb (gk d) (f_cas s)); [exact H|].
+        destruct (verify d (limit_reader d c)); [|exact H]. apply indexed_index_after. exact H.
+    + pose proof (file_named_push_graph_same fx ov s (gk d) (d_name d) c) as X.
+      destruct (file_named_push fx ov s (gk d) (d_name d) c) as [s1 [e|]]; cbn [fst] in *.
+      * unfold indexed. now rewrite X.
+      * apply indexed_index_after. unfold indexed. now rewrite X.
+  - cbn [file_step]. destruct (file_fetch d s); exact H.
+  - cbn [file_step]. destruct r; try exact H; destruct (file_exists d s); exact H.
+  - cbn [file_step]. destruct r; try exact H; destruct (get ref_eqb _ (r_index (f_res s))); exact H.
+Qed.
+
+Lemma indexed_run fx ig ov k h : forall s, indexed k s -> indexed k (fst (runf (file_step fx ig ov) s h)).
+Proof.
+  induction h as [|o h IH]; intros s H; [exact H|]. rewrite runf_cons. cbn [fst]. apply IH. now apply indexed_step.
+Qed.
+
+Lemma index_after_ok_indexed fx ov d s :
+  snd (file_index_after fx ov d s) = FO OOk -> indexed (gk d) (fst (file_index_after fx ov d s)).
+Proof.
+  unfold file_index_after.
+  assert (Hi : snd (file_index d s) = FO OOk -> indexed (gk d) (fst (file_index d s))).
+  { unfold file_index. destruct (is_manifest (d_mt d)).
+    - destruct (file_fetch d s) as [c1|]; [|discriminate]. destruct (d_dig d =? b_hash c1); [|discriminate].
+      intros _. cbn [fst]. apply indexed_g_index. now right.
+    - intros _. cbn [fst]. apply indexed_g_index. now right. }
+  destruct (file_index d s) as [s2 r]. cbn [fst snd] in Hi.
+  destruct r as [o|e]; [|discriminate]. destruct o; try discriminate. specialize (Hi eq_refl).
+  destruct (is_manifest (d_mt d)); [|intros _; exact Hi].
+  destruct (file_fetch d s2) as [c1|]; [|discriminate]. destruct (d_dig d =? b_hash c1); [|discriminate].
+  pose proof (file_restore_graph_same fx ov (b_tl c1) s2) as X.
+  destruct (file_restore fx ov (b_tl c1) s2) as [s3 [e|]]; cbn [fst snd] in *; intros _; unfold indexed; now rewrite X.
+Qed.
+
+Lemma file_named_push_some_err fx ov s k n c s1 e :
+  file_named_push fx ov s k n c = (s1, Some e) -> e <> FO OOk.
+Proof.
+  unfold file_named_push. destruct (mem N.eqb n (f_names s)); [intro H; injection H as <- <-; discriminate|].
+  destruct (bad_name n); [intro H; injection H as <- <-; discriminate|].
+  destruct (ov && _); [intro H; injection H as <- <-; discriminate|].
+  destruct (_ && _); intro H; [discriminate | injection H as <- <-; discriminate].
+Qed.
+
+(* a Push that succeeded (and was not discarded by IgnoreNoName) is in the graph for ever *)
+Theorem file_push_ok_indexed fx ig ov s d c h2 :
+  (ig = false \/ d_name d <> 0) ->
+  snd (file_step fx ig ov s (Push d c)) = FO OOk ->
+  indexed (gk d) (fst (runf (file_step fx ig ov) (fst (file_step fx ig ov s (Push d c))) h2)).
+Proof.
+  intros Hig Hok. apply indexed_run. revert Hok. rewrite file_step_push_split. unfold file_push_store.
+  destruct (d_name d =? 0) eqn:En.
+  - apply N.eqb_eq in En. destruct Hig as [->|Hn]; [|congruence].
+    destruct (get gkey_eqb (gk d) (f_cas s)); [discriminate|].
+    destruct (verify d (limit_reader d c)); [|discriminate]. apply index_after_ok_indexed.
+  - destruct (file_named_push fx ov s (gk d) (d_name d) c) as [s1 [e|]] eqn:Enp; cbn [fst snd].
+    + intro X. exfalso. apply (file_named_push_some_err _ _ _ _ _ _ _ _ Enp). exact X.
+    + apply index_after_ok_indexed.
+Qed.
+
+(* non-vacuity: a layer and a manifest listing it, with the bytes function they come from *)
+Definition fgx_B (g : N) : blob := if g =? 9 then mkBlob 9 20 [(6, 1, 5)] 9 [(6, 1, 5)] else mkBlob 1 5 [] 1 [].
+Definition fgx_hist : list op :=
+  [Push w_named w_good; Push (mkDesc 1 9 20 0) (mkBlob 9 20 [(6, 1, 5)] 9 [(6, 1, 5)]); Preds w_layer].
+Lemma fgx_wf : Forall (wfB_op fgx_B) fgx_hist /\ Forall no_alias fgx_hist.
+Proof.
+  split.
+  - repeat constructor; intros _; reflexivity.
+  - repeat constructor; try reflexivity; intros k n [].
+Qed.
+Lemma fgx_run : snd (runf (file_step true false false) file_init fgx_hist) = [FO OOk; FO OOk; FO (OPreds [(1, 9, 20)])].
+Proof. vm_compute. reflexivity. Qed.
